@@ -278,6 +278,19 @@ def facts():
             for m in sorted(set(re.findall(r"\.interp\s*\.\s*([a-z_]+)\s*\(", b))):
                 capi.append("%s: %s" % (n, m))
     f["capi_entry_calls"] = sorted(capi)
+    # ---- C03: every place where the compiler / interpreter mentions type-only syntax -----------------------
+    tpat = re.compile(r"type_annotation|return_type|type_parameters|type_params|type_arguments|type_args|TypeAnnotation|"
+                      r"Statement::TypeAlias|Statement::InterfaceDeclaration|Expression::TypeAssertion|Expression::NonNull|Satisfies")
+    uses = []
+    for rel, s in inter:
+        if not (rel.startswith("src/compiler") or rel.startswith("src/interpreter")):
+            continue
+        for name, body, _ in functions(s):
+            for ln in body.splitlines():
+                m = tpat.search(ln)
+                if m:
+                    uses.append("%s::%s: %s" % (rel.replace("src/", ""), name, re.sub(r"\s+", " ", ln.strip())[:90]))
+    f["type_syntax_uses"] = sorted(set(uses))
     # ---- C01: the Pratt table -----------------------------------------------------------
     par = dict(inter).get("src/parser.rs", "")
     body = next((b for n, b, _ in functions(par) if n == "current_binary_op"), "")
@@ -317,6 +330,7 @@ GROUPS = {
     "C01": ["binop_table"],
     "C13": ["constants"],
     "C17": ["ffi_exports"],
+    "C03": ["type_syntax_uses"],
     "C19": ["prologue_eval", "prologue_prepare", "prologue_resume", "capi_entry_calls"],
 }
 
